@@ -50,6 +50,13 @@ VerdictC(p, e, s) ==
                  ELSE IF wrong # {} THEN V("insertion-bits-do-not-belong-to-the-loaded-message", [t |-> e.touched[CHOOSE k \in wrong : TRUE].t, d0 |-> d0, d1 |-> d1], e.touched[CHOOSE k \in wrong : TRUE].bits)
                  ELSE IF Len(e.touched) > 1 THEN V("insertion-applied-to-several-messages", 1, Len(e.touched))
                  ELSE OK
+         [] e.op = "TxRound" ->
+              LET f0 == Loaded(e.nbytes, e.nhash, e.tweak, e.flags, SetOfSeq(e.init))
+                  ops == UNION {Bip37Idx(f0, OutPointBytes(e.txids[g], <<0, 0>>)) : g \in 1..Len(e.txids)}
+                  want == IF e.flags = 0 THEN f0.bits ELSE f0.bits \cup ops
+              IN IF Bip37Idx(f0, e.item) \subseteq f0.bits /\ \E g \in 1..Len(e.rets) : ~e.rets[g] THEN V("concurrent-match-missed", "all true", e.rets)
+                 ELSE IF SetOfSeq(e.final) # want THEN V("lost-or-spurious-outpoint-update", [missing |-> want \ SetOfSeq(e.final), extra |-> SetOfSeq(e.final) \ want], Len(e.txids))
+                 ELSE OK
          [] e.op = "RaceDetector" -> IF e.reports = 0 THEN OK ELSE V("data-race", 0, e.first)
          [] e.op = "GcsConc" -> IF e.bytesbefore # e.bytesafter THEN V("gcs-filter-mutated-by-queries", 0, 1)
                                 ELSE IF \E g \in 1..Len(e.conc) : e.conc[g] # e.seq THEN V("gcs-concurrent-answers-differ", e.seq, "differs")
